@@ -10,5 +10,6 @@ CONSTANTS
  FixDoubleDec = FALSE
  FixUnbounded = TRUE
  FixWouldBlock = TRUE
+ CoalesceWake = FALSE
 INVARIANTS TypeOK Framing NoDuplicateFrame MetadataFirstAndOrder CountConsistent QueueConservation NoTornFrame StartsUp
 CHECK_DEADLOCK FALSE
